@@ -18,7 +18,7 @@ RULE = (
     "Non-trivial = >=1 run-length record, or >=2 records, or a 65535-byte record, or a non-zero delta, or a malformed input; distinct by case hash."
 )
 LEVEL_TEXT = "Differential exploration against an independent strict IPS reader/encoder over generated and exhaustively truncated patch files."
-LEVEL_NOTE = "Trusted: vlib/model/ips.py. Not generated: offset+delta outside [0,2^24) (unspecified), a record at 0x454F46 (ambiguous in the format), trailing bytes after EOF, RLE count 0."
+LEVEL_NOTE = "Trusted: vlib/model/ips.py. Not generated: offset+delta >= 2^24 or below -0x200 (unspecified; landings in [-0x200, 0) are generated as the headered-patch idiom), a record at 0x454F46 (ambiguous in the format), trailing bytes after EOF, RLE count 0."
 DESIGN_REF = "DESIGN.md §3 C13, §2.6"
 ASSUMPTIONS = ["host program emits at ROM offsets 0x8000..0x803F only; patch records (after delta) stay clear of 0x7F00..0x80FF and inside [0, 2^24)"]
 
@@ -45,7 +45,27 @@ def _payload(rng, n):
     return {"pat": [rng.randint(0, 250), n]}
 
 
+def _build_headered(rng):
+    """the header-stripping idiom: a patch made for a headered ROM included with a negative delta, some of whose records sit
+    inside the 0x200-byte copier header and so land below zero"""
+    delta = rng.choice([-0x200, -0x200, -0x100, -0x1FF, -0x201 + rng.randint(1, 0x1F0)])
+    recs = []
+    for i in range(rng.randint(1, 5)):
+        n = rng.choice([1, 2, 3, 4, 16, rng.randint(1, 0x120)])
+        k = rng.random()
+        if i == 0 or k < 0.4:
+            off = rng.randint(0, -delta - 1)  # lands below zero (it may reach across zero)
+        elif k < 0.7:
+            off = rng.randint(-delta, 0x600)
+        else:
+            off = rng.randint(0x20000, 0x400000)
+        recs.append([off, {"rle": [rng.randrange(256), n]}] if rng.random() < 0.3 else [off, _payload(rng, n)])
+    return {"t": "headered", "records": recs, "delta": delta, "form": rng.choice(["lit", "zero-minus", "neg"]), "place": rng.choice(["top", "block", "between", "scope"])}
+
+
 def _build(rng):
+    if rng.random() < 0.06:
+        return _build_headered(rng)
     nrec = rng.choice([0, 1, 1, 2, 2, 3, 5, 8, 12])
     many = rng.random() < 0.02
     if many:
@@ -280,6 +300,8 @@ def run_case(case) -> Outcome:
             out.bad("malformed-accepted:" + case["why"].split(" at ")[0], case,
                     f"malformed IPS file ({case['why']}) was accepted; writer calls {driver.blocks_json(res['blocks'], 16)}")
         return out
+    if case["t"] == "headered":
+        return _run_headered(case)
     records, delta = case["records"], case["delta"]
     recs = []
     for off, spec in records:
@@ -330,6 +352,55 @@ def run_case(case) -> Outcome:
     if got != want:
         kind = "delta" if ips.normalise([(o - delta, d) for o, d in calls]) == ips.normalise([(o, d) for o, d in [(x - delta, y) for x, y in expected]]) and False else kinds
         out.bad(f"effect:{kind}", case, f"patch effect differs: got {[(hex(o), len(d), d[:4].hex()) for o, d in got][:6]} expected {[(hex(o), len(d), d[:4].hex()) for o, d in want][:6]} (delta {delta})")
+    return out
+
+
+def _run_headered(case) -> Outcome:
+    delta = case["delta"]
+    recs = [(off, (spec["rle"][0], spec["rle"][1]) if "rle" in spec else driver.file_bytes(spec)) for off, spec in case["records"]]
+    blob = ips.build(recs)
+    expected = [(off + delta, (bytes([p[0]]) * p[1]) if isinstance(p, tuple) else p) for off, p in recs]
+    if any(_near_host(o, len(d)) for o, d in expected if o >= 0):
+        return Outcome(skip="offset+delta outside the generated domain")
+    below = [o for o, _ in expected if o < 0]
+    out = Outcome(evals=3, nontrivial=True, labels=["headered", f"place:{case['place']}"] + (["lands-below-zero"] if below else []))
+    dt = _delta_text(delta, case["form"])
+    src = _program(case["place"], dt)
+    files = {"p.ips": {"hex": blob.hex()}}
+    out.sample = {"records": [[hex(o), (s if "hex" not in s else {"hex": s["hex"][:24]})] for o, s in case["records"]][:6], "directive": f".include_ips 'p.ips', {dt}", "place": case["place"]}
+    host = driver.assemble_mem(_host_only(case["place"]))
+    res = driver.assemble_mem(src, files=files)
+    if not host.accepted:
+        return Outcome(skip="host program rejected")
+    if not res.accepted:
+        return out.bad(f"headered:rejected:{res['exc'] or 'error'}@{res['frame']}", case, f"well-formed patch rejected: {res['status']} {res['exc']} {res.failure_text[:200]}\n{src}")
+    calls = list(res["blocks"])
+    for hb in host["blocks"]:
+        if hb in calls:
+            calls.remove(hb)
+        else:
+            return out.bad("host-output-changed", case, f"the surrounding program's own block {hb[0]:#x}:{hb[1].hex()} is missing/changed; calls {driver.blocks_json(res['blocks'], 16)}")
+    if [(o, bytes(d)) for o, d in calls] != expected:
+        out.bad("headered:writer-calls", case, f"records handed to the writer {[(o, len(d)) for o, d in calls][:8]}, expected (offset+delta, in order) {[(o, len(d)) for o, d in expected][:8]}\n{src}")
+    # as a patch for a headered ROM (copier-header option: +0x200) every record is representable again
+    f = driver.assemble_file_api(src, fmt="ips", copier=True, files=files)
+    if f["status"] != "ok" or f["rc"] not in (0, None):
+        out.bad("headered:copier-patch-refused", case, f"with the copier-header option every offset is >= 0, but: {f['status']} rc={f['rc']} {f['exc']} {f['msg'][:160]}\n{src}")
+    else:
+        try:
+            parsed = ips.parse(f["output"] or b"")
+        except ips.IpsError as e:
+            parsed = None
+            out.bad("headered:copier-patch-unparseable", case, f"output patch: {e}\n{src}")
+        if parsed is not None:
+            want_img = ips.apply([(o + 0x200, d) for o, d in list(res["blocks"])])
+            if ips.apply([(o, d) for o, d, _ in parsed]) != want_img or want_img != ips.apply([(o + 0x200, d) for o, d in expected + list(host["blocks"])]):
+                out.bad("headered:copier-patch-effect", case, f"output patch records {[(hex(o), len(d)) for o, d, _ in parsed][:8]}; expected the records at offset+delta+0x200: {[(hex(o + 0x200), len(d)) for o, d in expected][:8]}\n{src}")
+    if below:
+        # without it the records below zero cannot be represented: refused, never dropped or wrapped
+        f = driver.assemble_file_api(src, fmt="ips", copier=False, files=files)
+        if f["status"] == "ok" and f["rc"] in (0, None):
+            out.bad("headered:negative-offset-accepted", case, f"records at {below[:4]} cannot be written to an IPS file, yet the patch was produced ({len(f['output'] or b'')} bytes)\n{src}")
     return out
 
 
